@@ -25,13 +25,13 @@ TABLE = [
      "child exists; its text matches `<[0-9]+` and contains '<'"),
     (r"^frontend::ast::Predicate::is_true::\{closure#0\}\|index\|Index:str\|.* @ RangeFrom", "C12",
      "text of a Predicate token (`\\?([0-9]+|t)`): first character is the ASCII '?', so [1..] is a boundary inside the text"),
-    (r"^<codespan_reporting::diagnostic::Diagnostic<\(\)> as frontend::diag::LanguageErrors>::(lowercase_token|uppercase_rule)\|unwrap\|Option::unwrap\|::next\(str::chars\(param2\)\)$", "C12",
+    (r"^<codespan_reporting::diagnostic::Diagnostic<\(\)> as frontend::diag::LanguageErrors>::(lowercase_token|uppercase_rule)\|unwrap\|Option::unwrap\|Chars::next\(str::chars\(param2\)\)$", "C12",
      "every caller passes a name for which `name.starts_with(..)` just returned true, hence non-empty", ("callers-dom", r"str::starts_with$", True)),
     (r"^frontend::lexer::check_string\|assert:overflow:Sub\|assert\|ovf\(SubWithOverflow\(Add\(Range\.start,Option\.0\.0\),const:1\)\)$", "C12",
      "i is the char_indices offset of the character after a backslash, so i >= 1"),
     (r"^frontend::lexer::check_string\|panic\|panicking::panic\|const:internal error: entered unreachable", "C12",
      "a Str token ends with an unescaped quote (parse_string consumes the character after every backslash), so a backslash is never last"),
-    (r"^frontend::lexer::tokenize\|index\|Index:str\|Lexer::source\(Logos::lexer\(param1\)\) @ ::clone\(Option\.0\.1\)$", "C12",
+    (r"^frontend::lexer::tokenize\|index\|Index:str\|Lexer::source\(Logos::lexer\(param1\)\) @ Range::clone\(Option\.0\.1\)$", "C12",
      "span produced by logos for this very source: in range and on character boundaries"),
     (r"^frontend::sema::GeneralCheck::check_regex\|index\|Index:str\|Option\.0\.0 @ RangeFrom", "C12",
      "text of a Predicate/Action/Assertion/NodeRename token: the token regexes start with the ASCII characters ? # ! @"),
@@ -41,10 +41,10 @@ TABLE = [
      "fails on an I/O error of stderr (assumed writable) or on a label span outside the text / off a character boundary, which SPAN excludes"),
     (r"^build\|unwrap\|Result::unwrap\|env::var\(const:OUT_DIR\)$", "C12", "build-script entry point: cargo always sets OUT_DIR"),
     # ---------------------------------------------------------------- skeleton instance (C12, C03) --------------------
-    (r"^@::Cst::match_token::\{closure#0\}\|index\|Index:str\|.*source @ ::clone\(param\d\)$", "C12,C03", "span of an existing token node (lexer span)"),
+    (r"^@::Cst::match_token::\{closure#0\}\|index\|Index:str\|.*source @ Range::clone\(param\d\)$", "C12,C03", "span of an existing token node (lexer span)"),
     (r"^@::Cst::span_text\|index\|Index:Vec\|CstData\.spans @ ::from\(param2\)$", "C12,C03",
      "span index of a token node = token_count at its push < tokens.len() = spans.len() (S1 and one span per token); the phantom end token of known finding P1 is the exception"),
-    (r"^@::Cst::span_text\|index\|Index:str\|Cst\.source @ ::clone\(::index\(CstData\.spans\)\)$", "C12,C03", "lexer span of this source"),
+    (r"^@::Cst::span_text\|index\|Index:str\|Cst\.source @ Range::clone\(Vec::index\(CstData\.spans\)\)$", "C12,C03", "lexer span of this source"),
     (r"^@::CstData::children\|index\|Index:Vec\|CstData\.nodes @ (NodeRef\.0|Range::Range\{\.\.\})$", "C12,C03",
      "NodeRef of an existing node (NODEREF: built only by the child iterator, ROOT, or from a mark); the range ends at the node's stored extent"),
     (r"^@::CstData::close_root\|assert:overflow:Sub\|assert\|", "C12,C03", "the root mark is the index of a pushed node, so nodes.len() - 1 >= mark"),
@@ -73,7 +73,7 @@ TABLE = [
      "arms for Rule::Decl, Rule::Postfix and Rule::Regex: the self-hosted parser never closes a node of these kinds (checked by SHAPE-KINDS)"),
     (r"^backend::format::space_before_comment\|index\|Index:str\|Cst::source\(param1\) @ RangeTo", "C17", "start of a token span of this source"),
     # ---------------------------------------------------------------- language server (C20) ---------------------------
-    (r"^ide::completion::add_reference_items\|unwrap\|Option::unwrap\|::name\(Option\.0\)$", "C20",
+    (r"^ide::completion::add_reference_items\|unwrap\|Option::unwrap\|RuleDecl::name\(Option\.0\)$", "C20",
      "RuleDecl::name: rule_rule_decl is entered only with current == Id and consumes it first (checked by SHAPE); the TokenDecl twin is not total and is tested"),
     (r"^ide::hover::hover\|unwrap\|Option::unwrap\|str::strip_prefix\(", "C20", "text of a DocComment token (`///[^\\n]*\\n`) starts with ///"),
     (r"^ide::lookup::lookup_parser_impl_definition::\{closure#1\}\|assert:overflow:Sub\|assert\|ovf\(SubWithOverflow\(Location\.(column|line)_number,const:1\)\)$", "C20",
@@ -87,7 +87,7 @@ TABLE = [
      "fails only if the Cache dropped the receiver, which happens in invalidate after Cancel was sent and the thread joined"),
     (r"^ide::analyze\|unwrap\|(Result::unwrap\|Url::to_file_path\(param1\)|Option::unwrap\|Path::(parent|to_str)\()", "C20",
      "ASSUMPTION: documents are identified by file: URIs with a UTF-8 path below the root (stated in the evidence)"),
-    (r"^ide::compat::position_to_offset\|index\|Index:str\|SimpleFile::source\(param1\) @ ::clone\(Result\.0\)$", "C20",
+    (r"^ide::compat::position_to_offset\|index\|Index:str\|SimpleFile::source\(param1\) @ Range::clone\(Result\.0\)$", "C20",
      "line range returned by the same file's line_range: line starts follow '\\n' bytes, in range and on boundaries"),
     (r"^ide::compat::span_to_range\|unwrap\|Result::unwrap\|codespan_lsp::byte_span_to_range\(param1\)$", "C20",
      "fails for a span outside the text or off a character boundary; every span reaching it is a lexer/tree span (SPAN)"),
@@ -97,6 +97,11 @@ TABLE = [
      "serialising lsp_types values (string-keyed maps only) cannot fail"),
     (r"^main\|unwrap\|Option::unwrap\|ArgMatches::get_one\(", "C19", "INPUT is a required argument and output has a default value (clap guarantees presence)"),
 ]
+
+# number of sites each table entry matched on the audited tree (an entry never silently covers more sites than were read)
+MAXCOUNT = [1, 1, 2, 1, 1, 1, 4, 2, 1, 1, 1, 1, 1, 2, 2, 1, 3, 1, 4, 1, 1, 1, 3, 3, 1, 2, 1, 2, 2, 3, 1, 1, 1, 2, 6, 7, 2, 6, 3, 1, 1, 8, 1, 8, 2]
+
+assert len(MAXCOUNT) == len(TABLE)
 
 SKELETON_PREFIX = re.compile(r"^(?:[\w:]*?::)?parser::(Cst|CstData|CstChildren|Parser|NodeRef|Node|Rule)\b")
 
@@ -226,6 +231,10 @@ def evaluate(ctx, rep, props, rid="PANIC"):
                 continue
             nsites += 1
             used[hit[0]] += 1
+            if used[hit[0]] > MAXCOUNT[hit[0]]:
+                rep.violation(rid, "count|" + key, "%s: more sites match the audited entry `%s` than were audited (%d > %d): the additional %s site needs its own "
+                              "justification" % (b.name, hit[2][:80], used[hit[0]], MAXCOUNT[hit[0]], s["kind"]), site(b, s["pt"]))
+                continue
             if hit[3] and not _check_guard(z, b, s, hit[3]):
                 rep.violation(rid, "guard|" + key, "%s: the table justifies this %s site by a dominating guard (%s) that no longer dominates it: %s"
                               % (b.name, s["kind"], hit[2], key), site(b, s["pt"]))
